@@ -1,4 +1,5 @@
 """C12 - multisig: quorum of current signers, at most once, within the lock."""
+import re
 from core import *
 from rules import *
 import sends as sendsmod
@@ -171,6 +172,15 @@ def run(prog, rep, tier, cfg):
     X.guard('K6b', 'constructor:threshold>=1', K, cr, m_rel('lt', ['F:ConstructorParams.num_approvals_threshold'], ['V:1'], False), 'threshold < 1 => Err')
     X.guard('K6b', 'constructor:dedup', K, [x.bb for x in K.calls if (x.callee or '').endswith('Vec::<T, A>::push')],
             m_pred('BTreeSet::<T, A>::insert', [], True), 'duplicate signer => Err')
+    # ---- the approval list is ordered (its first entry is the only one who may cancel): removing a purged signer must keep the
+    # order of the remaining approvers - `retain` / `remove(i)`, never `swap_remove` (which moves the last approver to the front)
+    PA = X.fn('state::State::purge_approvals', CR)
+    fam = prog.family(PA)
+    keep = [c for g in fam for c in g.calls if re.search(r'Vec::<T, A>::(retain|retain_mut|remove)$|::drain$|::filter$', c.callee or '')]
+    swap = [c for g in fam for c in g.calls if re.search(r'Vec::<T, A>::swap_remove$|::swap$|::sort|::reverse$|::dedup', c.callee or '')]
+    rep.need('K10', 'purge:keeps-approval-order', bool(keep) and not swap,
+             'purge_approvals removes the signer with an order-preserving operation (found %s; order-breaking: %s)' % ([(c.callee or '').split('::')[-1] for c in keep], [(c.callee or '').split('::')[-1] for c in swap]), X.loc(PA))
+
     # ---- error discipline: no Result produced in these crates is silently discarded
     X.no_dropped_results('K14', 'results-not-discarded', ['fil_actor_multisig'], 'no Result of a call is discarded')
     X.tolerated_failures('K15', 'tolerated-failures', ['fil_actor_multisig'], 'tolerated failures are the reviewed ones')
